@@ -426,6 +426,111 @@ pub fn c10(ctx: &Ctx) -> Report {
     // every state set_phase can leave behind must satisfy the per-state oracle too
     set_phase_sweep(ctx, &mut rep, if ctx.tier.is_thorough() { 1 } else { 64 }, &["C10"]);
     rep.exhaustive = true;
+    // jump away and come back: place the oscillator at a (by ticking), set_phase to b, then one or two ticks whose
+    // increment brings it back to a (+ r): all five outputs must equal those of an oscillator ticked straight there
+    {
+        let n: u64 = if ctx.tier.is_thorough() { 512 } else { 160 };
+        par_ranges(ctx, &mut rep, n * n, 1024, |_, lo, hi, lc| {
+            for i in lo..hi {
+                let ai = i / n;
+                let bi = i % n;
+                let a = ((ai * (M24 as u64) / n) as u32 + (ai as u32 * 37) % 16384) & (M24 - 1);
+                let b = ((bi * (M24 as u64) / n) as u32 + (bi as u32 * 91) % 16384 + 8192) & (M24 - 1);
+                for (r, two_ticks, frac) in [(0u32, false, false), (1, false, false), (4099, false, false), (0, true, false), (3, true, true)] {
+                    let mut l = lfo_at(a);
+                    // one extra tick at a small increment so that `a` is a state reached by ticking with history
+                    let pb = b as f32 / 16777216.0;
+                    l.set_phase(pb);
+                    let cb = match phase_of(&l) {
+                        Ok(c) => c,
+                        Err(_) => continue,
+                    };
+                    let target = a.wrapping_add(r) & (M24 - 1);
+                    let d = target.wrapping_sub(cb) & (M24 - 1);
+                    let per = if two_ticks { d / 2 } else { d };
+                    let f = if frac { (per as f32 + 0.5) / 16384.0 } else { inc_freq(per) };
+                    l.set_frequency(f);
+                    l.tick();
+                    if two_ticks {
+                        l.tick();
+                    }
+                    lc.count("jump_and_return_sequences", 1);
+                    let script = || vec![format!("freq:{:?}", inc_freq(a)), "tick".to_string(), format!("phase:{:?}", pb), format!("freq:{:?}", f), if two_ticks { "tick*2".to_string() } else { "tick".to_string() }];
+                    let s = match std::panic::catch_unwind(std::panic::AssertUnwindSafe(|| read(&l))) {
+                        Ok(s) => s,
+                        Err(e) => {
+                            lc.violation(viol("C10", "state-outside-cycle", format!("reading the waveforms panics: {}", panic_msg(&e)), FS0, script()));
+                            continue;
+                        }
+                    };
+                    match phase_of(&l) {
+                        Ok(c) => {
+                            let mut fnd: Vec<Finding> = Vec::new();
+                            c10_state(c, &s, &mut fnd);
+                            if s != read(&lfo_at(c)) {
+                                fnd.push(("C10", "history-dependent", format!("outputs {:?} at phase {} after a jump and return differ from those of an oscillator ticked straight there {:?}", s, c, read(&lfo_at(c)))));
+                            }
+                            if (c >> 14) == (a >> 14) {
+                                lc.count("returns_into_the_table_cell_left_before_the_jump", 1);
+                            }
+                            for (p, cl, d) in fnd {
+                                lc.violation(viol(p, cl, d, FS0, script()));
+                            }
+                        }
+                        Err(e) => lc.violation(viol("C10", "state-outside-cycle", e, FS0, script())),
+                    }
+                }
+            }
+        });
+        rep.evaluations += n * n * 5;
+        rep.transitions += n * n * 7;
+        rep.traces += n * n * 5;
+        rep.require_nonzero("returns_into_the_table_cell_left_before_the_jump");
+    }
+    // non-integer steps landing on the last counter values: frequency (k + 2^-j) * 2^-14 Hz, start phase chosen so
+    // that after 2^j ticks the truncated steps end exactly on 0xFFFFFF / 0xFFFFFE / 0x7FFFFF / 0
+    {
+        let mut n_cases = 0u64;
+        for k in [0u32, 1, 3, 1000, 16385, 524_289] {
+            for j in 1..=9u32 {
+                for target in [0xFF_FFFFu32, 0xFF_FFFE, 0x7F_FFFF, 0] {
+                    for extra in [0u32, 1] {
+                        let n = (1u32 << j) + extra;
+                        let f = (k as f64 + (0.5f64).powi(j as i32)) / 16384.0;
+                        let f = f as f32;
+                        let start = target.wrapping_sub(n.wrapping_mul(k)) & (M24 - 1);
+                        let mut l = lfo_at(start);
+                        l.set_frequency(f);
+                        let mut script = place_script(start, 0);
+                        script.pop();
+                        script.push(format!("freq:{:?}", f));
+                        for t in 0..n {
+                            l.tick();
+                            script.push("tick".to_string());
+                            n_cases += 1;
+                            let r = std::panic::catch_unwind(std::panic::AssertUnwindSafe(|| read(&l)));
+                            let bad = match (&r, phase_of(&l)) {
+                                (Err(e), _) => Some(format!("reading the waveforms panics: {}", panic_msg(e))),
+                                (_, Err(e)) => Some(e),
+                                (Ok(s), Ok(c)) => {
+                                    let mut fnd: Vec<Finding> = Vec::new();
+                                    c10_state(c, s, &mut fnd);
+                                    fnd.first().map(|x| x.2.clone())
+                                }
+                            };
+                            if let Some(d) = bad {
+                                rep.violation(viol("C10", "state-outside-cycle", format!("after tick {} at a step of {} + 2^-{} counts: {}", t + 1, k, j, d), FS0, script.clone()));
+                                break;
+                            }
+                        }
+                    }
+                }
+            }
+        }
+        rep.count("fractional_step_landings", n_cases);
+        rep.evaluations += n_cases;
+        rep.transitions += n_cases;
+    }
     // history independence is checked by the C11 exploration machine; run a small instance here too
     let m = LfoM::new(1000.0, vec![0.0, 1.0, 250.0, 999.0], vec![0.0, 0.25, 0.999, 0.999_999_94, -0.3, 7.5]);
     let d = if ctx.tier.is_thorough() { 7 } else { 5 };
@@ -456,9 +561,23 @@ pub fn c12(ctx: &Ctx) -> Report {
     let mut rep = Report::new();
     rep.rule.push("E2: every adjacent pair of phase-counter values (increment 1, all 2^24 pairs including the wrap), then every start phase with larger increments; per tick |d sine| <= 2*pi*1.002*step + 2*2^-23 and |d triangle| <= 4*step; non-trivial = pairs checked".into());
     walk_all(ctx, &mut rep, 1, false, true, false, None);
-    let incs: &[u32] = if ctx.tier.is_thorough() { &[2, 3, 5, 16383, 16384, 16385, 32768 + 1, (1 << 20) + 1, (1 << 23) - 1] } else { &[3, 16385] };
-    for &k in incs {
-        walk_all(ctx, &mut rep, k, false, true, false, if ctx.tier.is_thorough() { None } else { Some(7) });
+    // increments: around every power of two (one table cell is 2^14 counts), and odd values in between
+    let mut incs: Vec<u32> = vec![2, 3, 5];
+    for e in 2..24u32 {
+        incs.push((1 << e) - 1);
+        incs.push((1 << e) + 1);
+        if e >= 10 {
+            incs.push((1 << e) + (1 << (e - 1)) + 7);
+            incs.push((1 << e) + (1 << (e - 2)) + 3);
+        }
+    }
+    incs.extend([16384u32, 600_001, 700_001, 800_003, 900_001, 1_000_003, 3_000_001, 5_000_011]);
+    incs.sort();
+    incs.dedup();
+    let stride = if ctx.tier.is_thorough() { Some(3) } else { Some(61) };
+    for &k in &incs {
+        let full = ctx.tier.is_thorough() && matches!(k, 2 | 3 | 16383 | 16384 | 16385 | 32769 | 524289 | 1048577);
+        walk_all(ctx, &mut rep, k, false, true, false, if full { None } else { stride });
     }
     // start phases positioned with set_phase (not reached by ticking), then one tick at a small increment
     let nstart: u64 = if ctx.tier.is_thorough() { 1 << 22 } else { 1 << 17 };
@@ -500,7 +619,7 @@ pub fn c12(ctx: &Ctx) -> Report {
     rep.require_nonzero("pairs_starting_from_set_phase");
     rep.exhaustive = true;
     rep.sample(json!({"script": {"machine": "lfo", "config": {"fs": 1024.0}, "ops": ["freq:1023.99994", "tick", "freq:6.1035156e-5", "tick"]}, "meaning": "the step from the last phase of a cycle into the next cycle"}));
-    rep.assumptions.push("the quick tier checks all 2^24 adjacent pairs at increment 1 and every 7th start phase at the larger increments; the thorough tier all start phases".into());
+    rep.assumptions.push("all 2^24 adjacent pairs at increment 1 in both tiers; ~85 larger increments (around every power of two and in between) from every 61st start phase (quick) / every 3rd (thorough), eight of them from every start phase in the thorough tier".into());
     rep
 }
 
@@ -521,7 +640,7 @@ pub fn c11(ctx: &Ctx) -> Report {
         }
     }
     // (b)
-    let rates: [f32; 8] = [100.0, 441.0, 1000.0, 8000.0, 44100.0, 48000.0, 96000.0, 192000.0];
+    let rates: [f32; 14] = [100.0, 441.0, 1000.0, 8000.0, 44100.0, 48000.0, 96000.0, 192000.0, 100.5, 999.9, 12345.678, 44100.5, 47952.047, 70312.5];
     let nf: u64 = if ctx.tier.is_thorough() { 200_000 } else { 20_000 };
     par_ranges(ctx, &mut rep, rates.len() as u64 * (nf + 1 + 64), 128, |_, lo, hi, lc| {
         let mut fnd: Vec<Finding> = Vec::new();
@@ -709,7 +828,7 @@ fn set_phase_case(bits: u32, l: &mut Lfo, l2: &mut Lfo, lc: &mut LocalCounts, fn
 }
 
 /// set_phase over f32 bit patterns (stride 1 = all 2^32), plus the neighbourhoods of every power of two
-fn set_phase_sweep(ctx: &Ctx, rep: &mut Report, stride: u64, props: &[&'static str]) {
+pub fn set_phase_sweep(ctx: &Ctx, rep: &mut Report, stride: u64, props: &[&'static str]) {
     let n = (1u64 << 32) / stride;
     let pv: Vec<&'static str> = props.to_vec();
     let pr = &pv;
